@@ -1222,14 +1222,7 @@ class Interp:
             if init is not None:
                 a = init.node.args
                 params = [x.arg for x in list(a.posonlyargs) + list(a.args)][1:]
-        elif isinstance(callee, ExtRef) and callee.name:
-            try:
-                from .match import EXTERNAL_SIGNATURES as _ES
-                cands = _ES.get(callee.name.rsplit(".", 1)[-1])
-                if cands and len(cands) == 1:
-                    params = list(cands[0])
-            except Exception:
-                params = None
+        # library callables are left as written: their transfer functions and the rules about them read the keywords the code uses
         if not params:
             return args, kwargs
         args = list(args)
